@@ -18,7 +18,8 @@ def run(tier, seed, ctxs=CTXS, wd=None):
 
     def gen(ctx):
         name = "Gen_Ast_%s" % ctx
-        cfg = pipe_sat.gen_cfg(u, ctx, maxnodes=MAXN[tier][ctx]) + ["  MaxAllNodes = %d" % MAXALL[tier][ctx]]
+        cfg = pipe_sat.gen_cfg(u, ctx, maxnodes=MAXN[tier][ctx], comp=pipe_sat.COMP_STRIDE[tier]["other"], seed=seed) + \
+            ["  MaxAllNodes = %d" % MAXALL[tier][ctx], "  WrapStride = %d" % (1 if tier == "quick" else 2)]
         write_module(wd, name, "Gen_Ast", pipe_sat.gen_defs(u), cfg)
         out = os.path.join(wd, "cases_%s.ndjson" % ctx)
         r = tlc(wd, name, name + ".cfg", env={"OUT": out}, workers=1, heap="8g", timeout=3000)
